@@ -21,6 +21,7 @@ import (
 	"fmt"
 	"os"
 	"path/filepath"
+	"regexp"
 	"runtime/debug"
 	"sort"
 	"strings"
@@ -367,7 +368,7 @@ func Run[C any](t *testing.T, prop string, gen func(*rapid.T) C, run func(c C, x
 				if isRapidControl(p) {
 					panic(p)
 				}
-				err = Violf("panic while executing case: %v\n%s", p, debug.Stack())
+				err = Violf("panic while executing case: %v\n%s", p, CleanStack(string(debug.Stack())))
 			}
 		}()
 		return run(c, x)
@@ -470,6 +471,32 @@ func sanitize(s string) string {
 		}
 		return r
 	}, s)
+}
+
+var (
+	reArgs   = regexp.MustCompile(`\([^()]*0x[0-9a-f][^()]*\)`)
+	reOff    = regexp.MustCompile(` \+0x[0-9a-f]+`)
+	reGor    = regexp.MustCompile(`goroutine \d+`)
+	reInGor  = regexp.MustCompile(`in goroutine \d+`)
+	rePtr    = regexp.MustCompile(`0x[0-9a-f]{6,}`)
+	reHarnes = regexp.MustCompile(`(?m)^(testing\.|pgregory\.net/rapid\.|verif/harness/vstat\.|runtime/debug\.Stack|created by testing).*\n(\t.*\n)?`)
+)
+
+// CleanStack makes a stack trace reproducible from run to run (no goroutine
+// ids, argument words, pc offsets) and drops the test-framework frames, so
+// that rapid sees the same failure message while shrinking (it only accepts a
+// shrink step whose error text is unchanged).
+func CleanStack(s string) string {
+	s = reHarnes.ReplaceAllString(s, "")
+	s = reArgs.ReplaceAllString(s, "(...)")
+	s = reOff.ReplaceAllString(s, "")
+	s = reInGor.ReplaceAllString(s, "in goroutine N")
+	s = reGor.ReplaceAllString(s, "goroutine N")
+	s = rePtr.ReplaceAllString(s, "0xPTR")
+	if len(s) > 6000 {
+		s = s[:6000] + "\n...(stack truncated)"
+	}
+	return s
 }
 
 // rapid signals "invalid data / stop" by panicking with private types; those
